@@ -165,10 +165,21 @@ that has no event is alive → leaving (a leave intent for a live member) -/
 def recordMatchesStatus (inRecord now : String) : Bool :=
   inRecord == now || (inRecord == "alive" && now == "leaving")
 
+/-- what the kind of an event says about the member (an update says nothing) -/
+def kindMatchesStatus (k : Kind) (now : String) : Bool :=
+  match k with
+  | .join => now == "alive" || now == "leaving"
+  | .leave => now == "left"
+  | .failed => now == "failed"
+  | _ => false
+
+/-- An event (kind + member record) matches the member's status if its kind denotes that status or
+the record inside it shows it.  (Both are needed: an update has no status of its own, and a join
+delivered for a member with a buffered leave intent carries a record that says `leaving`.) -/
 def monitorStatuses (received : List MEv) (sts : List (String × String)) : Option (String × String) :=
   match sts.find? (fun p =>
       match (forM p.1 received).getLast? with
-      | some e => !recordMatchesStatus (statusOfV e.ver) p.2
+      | some e => !(recordMatchesStatus (statusOfV e.ver) p.2 || kindMatchesStatus e.kind p.2)
       | none => true) with
   | some p => some ("status-mismatch", s!"member {hexOfString p.1} is {p.2} but the last event delivered for it says otherwise (or none was delivered)")
   | none => none
